@@ -503,9 +503,16 @@ TCloseOne(x) ==
 TCloseEnd ==
     /\ Calm
     /\ cl = "locked" /\ (conns = {} \/ "close_skips" \in Dev)
-    /\ tctx' = TRUE /\ tm' = "free" /\ cl' = "done"
-    /\ H([a |-> "TCloseRet"])
+    /\ tctx' = TRUE /\ tm' = "free" /\ cl' = "ret"
+    /\ NoH
     /\ UNCHANGED <<callVars, chistVars, connVars, rdrVars, tclosed, conns, idle, dialVars, panic>>
+
+\* Close has returned (observed by the controller)
+TCloseObs ==
+    /\ Calm
+    /\ cl = "ret" /\ cl' = "done"
+    /\ H([a |-> "TCloseRet"])
+    /\ UNCHANGED <<callVars, chistVars, connVars, rdrVars, tclosed, tm, conns, idle, tctx, dialVars, panic>>
 
 ------------------------------------------------------------------------------
 \* environment
@@ -534,7 +541,7 @@ CallProgress(c) ==   \* everything but Start (a call need not be started)
     \/ TakeReply(c) \/ SeeClose(c) \/ SeeCtx(c) \/ Retry(c) \/ Fail(c) \/ CallCweA(c) \/ CallCweB(c)
 RdrStep(x) == Take(x) \/ ArmIdle(x, "idle") \/ SetIdle(x) \/ Hand(x) \/ RdrCweA(x) \/ RdrCweB(x)
 DialStep(d) == Register(d) \/ HandOver(d) \/ Abandon(d)
-CloserStep == TCloseLock \/ (\E x \in ConnIds : TCloseOne(x)) \/ TCloseEnd
+CloserStep == TCloseLock \/ (\E x \in ConnIds : TCloseOne(x)) \/ TCloseEnd \/ TCloseObs
 DialRet(d) == DialOk(d) \/ DialErr(d)
 \* the armed deadline of a connection nobody answers eventually expires; a read on a dead/closed conn fails
 ReadEnds(x) == ReadFail(x, "err") \/ ReadFail(x, "timeout")
@@ -583,7 +590,7 @@ NoLossStrict == \A c \in Calls : (Ended(c) /\ delivered[c] /\ wok[c] /\ ~ctxDone
 ErrOnFault == \A c \in Calls : (Ended(c) /\ res[c] = "ok") => (delivered[c] /\ val[c] = Tok(c))
 ClosedRejects == \A c \in Calls : (startedClosed[c] /\ Ended(c)) =>
                       (res[c] = "tclosed" /\ writes[c] = 0 /\ dialedFor[c] = 0)
-CloseWakesAll == cl = "done" => (conns = {} /\ idle = {})
+CloseWakesAll == cl \in {"ret", "done"} => (conns = {} /\ idle = {})
 ArmedIsShortWhenOwed == \A x \in ConnIds : (owe[x] /\ ~closed[x]) => armed[x] = "query"
 \* C09 (reuse part): one exchange per connection; idle connections are not busy
 \* (a call whose reply has already been read no longer occupies the connection: readLoop puts the
@@ -596,7 +603,7 @@ TypeOK ==
     /\ \A c \in Calls : pc[c] \in {"na", "get", "dialWait", "install", "arm", "write", "writing", "wait",
                                    "cweA", "cweB", "decide", "done"}
     /\ \A x \in ConnIds : rpc[x] \in {"off", "reading", "got", "armIdle", "setIdle", "hand", "cweA", "cweB", "dead"}
-    /\ tm \in {"free", "closer"} /\ cl \in {"idle", "start", "locked", "done"}
+    /\ tm \in {"free", "closer"} /\ cl \in {"idle", "start", "locked", "ret", "done"}
 
 ReuseInv == FailOnlyWhen /\ AttemptsBounded /\ NoLoss /\ ErrOnFault /\ ClosedRejects /\ CloseWakesAll
             /\ ArmedIsShortWhenOwed /\ OneAtATime /\ IdleSound
